@@ -28,7 +28,7 @@ MUST_REACH = ["restarts", "emptied_kind_then_extended", "all_atoms_deleted", "re
 
 def generate(rng, tier):
     w = {"copy": 1, "subset": 1, "delete": 4, "delete_touching": 2, "delete_all": 0.6, "pop": 1, "translate": 0.7, "extend": 6, "replicate": 1,
-         "restart": 2, "replace": 1.5}
+         "restart": 2, "replace": 1.5, "assign": 1.5}
     spec = machine.gen_world(rng, nobj=(2, 4), nops=(4, 22), overlay=0.25, empty_prob=0.07, weights=w)
     faults = rng.random() < 0.3
     if faults:
